@@ -31,7 +31,18 @@ IAbs(x) == IF x < 0 THEN -x ELSE x
 RECURSIVE IGcdN(_,_)
 IGcdN(a, b) == IF b = 0 THEN a ELSE IGcdN(b, a % b)
 IGcd(a, b)  == IGcdN(IAbs(a), IAbs(b))
-IMod(x, p) == ((x % p) + p) % p
+IMod(x, p) == IF p < 1000000000 THEN ((x % p) + p) % p ELSE x % p     \* x % p is already in 0..p-1; the second form cannot overflow
+\* arithmetic mod p on canonical residues 0..p-1 that never leaves TLC's 32-bit integers (moduli up to 2^31 - 1)
+AddM(x, y, p) == IF x >= p - y THEN x - (p - y) ELSE x + y
+RECURSIVE MulM(_,_,_)
+MulM(x, y, p) == IF y = 0 THEN 0
+                 ELSE LET h == MulM(x, y \div 2, p)
+                          d == AddM(h, h, p)
+                      IN IF y % 2 = 1 THEN AddM(d, x, p) ELSE d
+RECURSIVE MagModM(_,_)
+MagModM(m, p) == IF m = <<>> THEN 0 ELSE AddM(m[1] % p, MulM(BASE % p, MagModM(Tail(m), p), p), p)
+BModM(x, p)  == LET r == MagModM(x.m, p) IN IF x.s >= 0 THEN r ELSE (p - r) % p
+BigP(p) == p >= 2000000          \* from here on MagMod / (x + y) % p could overflow: use the -M forms
 RECURSIVE IPow(_,_)
 IPow(x, n) == IF n = 0 THEN 1 ELSE x * IPow(x, n-1)
 
@@ -112,7 +123,7 @@ RFromBig(R, n) ==
            CASE R.k = "I" -> BToInt(n)
              [] R.k = "Z" -> n
              [] R.k = "Q" -> QMk(n, BOne)
-             [] R.k = "F" -> BMod(n, R.p)
+             [] R.k = "F" -> IF BigP(R.p) THEN BModM(n, R.p) ELSE BMod(n, R.p)
              [] R.k \in {"G", "E"} -> ZMk(n, BZero)
 
 RIsZero(R, x) ==
@@ -127,7 +138,7 @@ RAdd(R, x, y) ==
            CASE R.k = "I" -> x + y
              [] R.k = "Z" -> BAdd(x, y)
              [] R.k = "Q" -> QAddR(x, y)
-             [] R.k = "F" -> (x + y) % R.p
+             [] R.k = "F" -> IF BigP(R.p) THEN AddM(x, y, R.p) ELSE (x + y) % R.p
              [] R.k \in {"G", "E"} -> ZAdd(x, y)
              [] R.k = "P" -> LET E == DOMAIN x \cup DOMAIN y
                                  s == [e \in E |-> RAdd(R.b, PCoef(R, x, e), PCoef(R, y, e))]
@@ -146,6 +157,7 @@ RMul(R, x, y) ==
              [] R.k = "Z" -> BMul(x, y)
              [] R.k = "Q" -> QMulR(x, y)
              [] R.k = "F" -> IF R.p < 46341 THEN (x * y) % R.p
+                             ELSE IF BigP(R.p) THEN MulM(x, y, R.p)     \* double-and-add, never above 2^31 - 1
                              ELSE BMod(BMul(BN(x), BN(y)), R.p)        \* primes up to 2*10^6: the product exceeds TLC's integers
              [] R.k = "G" -> GMul(x, y)
              [] R.k = "E" -> EMul(x, y)
